@@ -39,7 +39,11 @@ def parseRaw (j : Json) (k : String) : Option RawOpts := do
     | .ok .null => some none
     | .ok v => (v.getNat?.toOption).map some
     | _ => none
-  pure ⟨present, empty, mode⟩
+  let optNat : String → Option (Option Nat) := fun k => match o.getObjVal? k with
+    | .ok .null => some none
+    | .ok v => (v.getNat?.toOption).map some
+    | _ => some none
+  pure ⟨present, empty, mode, ← optNat "owner", ← optNat "group"⟩
 
 def eapiRow (magic : String) : Option Generated.C33.EapiRow :=
   Generated.C33.eapis.find? (·.magic = magic)
@@ -61,58 +65,60 @@ def parseCtx (j : Json) : Option (Ctx × Generated.C33.EapiRow) := do
   let dest ← chars j "dest"
   let ins ← parseRaw j "ins"
   let dir ← parseRaw j "dir"
-  let insMode := if hr.forcedIns then hr.insMode else effMode hr.insMode ins
-  pure (⟨dest, insMode, effMode hr.dirMode dir⟩, er)
+  let insDflt : Option Attr := hr.insMode.map fun m => ⟨m, hr.insOwner, hr.insGroup⟩
+  let dirDflt : Option Attr := hr.dirMode.map fun m => ⟨m, none, none⟩
+  let insMode := if hr.forcedIns then insDflt else effMode insDflt ins
+  pure (⟨dest, insMode, effMode dirDflt dir⟩, er)
 
-/-- the model plan and the spec entries of one request -/
-def planOf (mfs sfs : Fs) (j : Json) : Option (Except Rej (List Op) × Except Rej (List Spec.Entry)) := do
+/-- the request, and the spec entries it prescribes on image `sfs` -/
+def requestOf (sfs : Fs) (j : Json) : Option (Request × Except Rej (List Spec.Entry)) := do
   let (c, er) ← parseCtx j
   let kind ← getStr j "kind"
   match kind with
   | "basename" => do
     let ts ← parseTargets j
-    pure (installPlan .basenameInstall c ts, Spec.prescribed (.basenameInstall) c ts)
+    pure (.install .basenameInstall c ts, Spec.prescribed (.basenameInstall) c ts)
   | "doins" => do
     let ts ← parseTargets j
     let r ← getBool j "recursive"
-    pure (installPlan (.doins r) c ts, Spec.prescribed (.doins r) c ts)
+    pure (.install (.doins r) c ts, Spec.prescribed (.doins r) c ts)
   | "dodoc" => do
     let ts ← parseTargets j
     let r ← getBool j "recursive"
-    pure (installPlan (.dodoc er.dodocAllowRecursive r) c ts, Spec.prescribed (.dodoc er.dodocAllowRecursive r) c ts)
+    pure (.install (.dodoc er.dodocAllowRecursive r) c ts, Spec.prescribed (.dodoc er.dodocAllowRecursive r) c ts)
   | "dohtml" => do
     let ts ← parseTargets j
     let o : HtmlOpts := ⟨← getBool j "recursive", ← strs j "a", ← strs j "A", ← strs j "f", ← strs j "x", ← chars j "p"⟩
-    pure (installPlan (.dohtml o) c ts, Spec.prescribed (.dohtml o) c ts)
+    pure (.install (.dohtml o) c ts, Spec.prescribed (.dohtml o) c ts)
   | "doman" => do
     let ts ← parseTargets j
     let m : ManCtx := ⟨er.domanDetect, er.domanOverride, ← chars j "i18n", er.archiveExts.map String.toList, er.unpackCI⟩
-    pure (installPlan (.doman m) c ts, Spec.prescribed (.doman m) c ts)
+    pure (.install (.doman m) c ts, Spec.prescribed (.doman m) c ts)
   | "domo" => do
     let ts ← parseTargets j
     let pn ← chars j "pn"
-    pure (installPlan (.domo pn) c ts, Spec.prescribed (.domo pn) c ts)
+    pure (.install (.domo pn) c ts, Spec.prescribed (.domo pn) c ts)
   | "dodir" => do
     let ds ← strs j "dirs"
-    pure (dodirPlan c ds, Spec.dodirEntries c ds)
+    pure (.dodir c ds, Spec.dodirEntries c ds)
   | "keepdir" => do
     let ds ← strs j "dirs"
     let cat ← chars j "category"; let pn ← chars j "pn"; let slot ← chars j "slot"
-    pure (keepdirPlan c cat pn slot ds, Spec.keepdirEntries c cat pn slot ds)
+    pure (.keepdir c cat pn slot ds, Spec.keepdirEntries c cat pn slot ds)
   | "dosym" => do
     let s ← chars j "source"; let t ← chars j "target"; let r ← getBool j "relative"
-    pure (dosymPlan c mfs er.dosymRelative r s t, Spec.dosymEntries c sfs er.dosymRelative r s t)
+    pure (.dosym c er.dosymRelative r s t, Spec.dosymEntries c sfs er.dosymRelative r s t)
   | "dohard" => do
     let s ← chars j "source"; let t ← chars j "target"
-    pure (dohardPlan c s t, Spec.dohardEntries c s t)
+    pure (.dohard c s t, Spec.dohardEntries c s t)
   | _ => none
 
 def prefixes (p : Path) : List Path := (List.range (p.length + 1)).map (p.take ·)
 
 def nodeJson (p : Path) : Node → Json
-  | .dir m => .arr #[ofChars (joinWith '/' p), "d", toJson m, ""]
-  | .file m id => .arr #[ofChars (joinWith '/' p), "f", toJson m, toJson id]
-  | .link t => .arr #[ofChars (joinWith '/' p), "l", toJson (0 : Nat), ofChars t]
+  | .dir m => .arr #[ofChars (joinWith '/' p), "d", toJson m.mode, "", toJson m.uid, toJson m.gid]
+  | .file m id => .arr #[ofChars (joinWith '/' p), "f", toJson m.mode, toJson id, toJson m.uid, toJson m.gid]
+  | .link t uid gid => .arr #[ofChars (joinWith '/' p), "l", toJson (0 : Nat), ofChars t, toJson uid, toJson gid]
 
 def snapshot (fs : Fs) (cands : List Path) : Json :=
   .arr (cands.eraseDups.filterMap fun p => if p = [] then none else (fs p).map (nodeJson p)).toArray
@@ -121,7 +127,8 @@ def snapshot (fs : Fs) (cands : List Path) : Json :=
 def runSeq (u : Umask) : List Json → Fs → Fs → List Path → List Path → List Json → Option (List Json)
   | [], _, _, _, _, acc => some acc.reverse
   | j :: rest, mfs, sfs, mc, sc, acc => do
-    let (plan, entries) ← planOf mfs sfs j
+    let (req, entries) ← requestOf sfs j
+    let plan := req.plan mfs
     let mres := execute u mfs plan
     let sres := entries.bind fun es => (Spec.imageE u sfs es).map fun fs' => (fs', es.flatMap fun e => prefixes e.path)
     match mres, plan, sres with
@@ -155,7 +162,9 @@ def handle : Handler := fun cmd j =>
     pure (Json.mkObj [("model", enc (manPlace m arg)), ("spec", enc (Spec.manDest m (basename arg)))])
   | "c33.seq" => do
     let uo ← (j.getObjVal? "umask").toOption
-    let u : Umask := ⟨← getNat uo "dir", ← getNat uo "file"⟩
+    let uid ← getNat uo "uid"
+    let gid ← getNat uo "gid"
+    let u : Umask := ⟨⟨← getNat uo "dir", uid, gid⟩, ⟨← getNat uo "file", uid, gid⟩⟩
     let reqs ← getArr j "reqs"
     match runSeq u reqs emptyFs emptyFs [] [] [] with
     | some out => pure (.arr out.toArray)
